@@ -642,6 +642,8 @@ with builtin_call (n : nat) (fr : list frame) (b : builtin) (args : list value) 
   | BSetMt =>
       match a1 with
       | VTab r =>
+          (* a missing second argument is not nil: "bad argument #2 (nil or table expected)" *)
+          match tl args with [] => badarg | _ :: _ =>
           do prot <- getmeta a1 s_mm_metatable;
           if negb (is_nil prot) then raise (VStr ((match fr with (Some l, _) :: _ => pos_prefix l | _ => [] end) ++ s_cannot_change_a_protected_metatable)) else
           do t <- read_tab r;
@@ -649,6 +651,7 @@ with builtin_call (n : nat) (fr : list frame) (b : builtin) (args : list value) 
           | VNil => write_tab r (mkTab (t_kv t) None) ;; ret [a1]
           | VTab m => write_tab r (mkTab (t_kv t) (Some m)) ;; ret [a1]
           | _ => badarg
+          end
           end
       | _ => badarg
       end
